@@ -18,7 +18,7 @@ import (
 func init() {
 	core.Register(&core.Prop{
 		ID: "C11",
-		Rule: "case = one insert/delete history (50-2000 operations built from phases: grow, drain to empty, refill, oscillate around split/underflow sizes, delete in insertion / reverse / random order, absent-object deletes) on a tree with branching parameters drawn from all valid (min,max), 2<=min<=max/2, max<=16; objects are *Bounds pointers, Point values (duplicates equal) and a harness pointer type (3% with an empty bounding box, 1% so large that areas overflow), on a small integer grid (coincident and touching boxes frequent) or floats; runs of concentric boxes stored outside-in followed by their centre point; 15% of histories draw most objects from a palette of 1..5 boxes (whole nodes of coincident entries), half of those with fan-outs 17..100; " +
+		Rule: "case = one insert/delete history (50-2000 operations built from phases: grow, drain to empty, refill, oscillate around split/underflow sizes, delete in insertion / reverse / random order, absent-object deletes) on a tree with branching parameters drawn from all valid (min,max), 2<=min<=max/2, max<=16; objects are *Bounds pointers, Point values (duplicates equal) and a harness pointer type (6%: a new object whose Bounds() returns the very box pointer of a stored object, inserted or deleted while absent; 3% with an empty bounding box, 1% so large that areas overflow), on a small integer grid (coincident and touching boxes frequent) or floats; runs of concentric boxes stored outside-in followed by their centre point; 15% of histories draw most objects from a palette of 1..5 boxes (whole nodes of coincident entries), half of those with fan-outs 17..100; " +
 			"after EVERY operation a brute-force multiset model is compared (Size, Delete result, 6 SearchIntersect queries incl. degenerate/touching/empty/whole-space) and the hooked node structure is walked (all leaves at one depth, Depth() equals it, every entry box == exact envelope of its subtree, fan-out <= max, leaf entries carry objects, objects in leaves == Size); " +
 			"an evaluation is one operation judged; non-trivial = history in which the walker observed a root collapse (height decrease); distinct by history hash",
 		Assumptions: []string{"objects are comparable (pointers, points, boxes) as the property states", "parent-link and level consistency are recorded, not judged (not stated by the property)"},
@@ -30,7 +30,7 @@ func init() {
 		}}},
 		Run: func(c *core.Ctx, idx int) { runHistory(c, idx, false) },
 		Floors: func(t string) map[string]int64 {
-			return map[string]int64{"walker.root_collapse": 100, "walker.height>=3": 50, "hist.drained_to_empty": 50, "delete.absent": 1000, "delete.duplicate_object": 100, "query.touching": 1000, "query.unbounded": 1000, "obj.unbounded_box": 100, "query.degenerate": 1000, "obj.*Bounds": 1000, "obj.Point": 1000, "obj.harness_pointer": 1000}
+			return map[string]int64{"walker.root_collapse": 100, "walker.height>=3": 50, "hist.drained_to_empty": 50, "delete.absent": 1000, "delete.duplicate_object": 100, "query.touching": 1000, "query.unbounded": 1000, "obj.unbounded_box": 100, "query.degenerate": 1000, "obj.*Bounds": 1000, "obj.Point": 1000, "obj.harness_pointer": 1000, "obj.shares_bounds_pointer_with_stored": 500}
 		},
 	})
 	core.Register(&core.Prop{
@@ -169,6 +169,23 @@ func (h *hist) newObj() stored {
 		h.c.Count("obj.area_overflows")
 		bb := b
 		return stored{obj: &bb, box: b, id: h.nextID}
+	}
+	if len(h.model) > 0 && r.Chance(0.06) {
+		// a different object whose Bounds() returns the very *Bounds pointer of a stored object
+		// (records of one grid cell returning the cell's cached box; a box stored next to a
+		// wrapper of it): objects are told apart by identity, never by their box pointer
+		m := h.model[r.Intn(len(h.model))]
+		var p *geom.Bounds
+		switch o := m.obj.(type) {
+		case *geom.Bounds:
+			p = o
+		case *boxObj:
+			p = o.bx
+		}
+		if p != nil {
+			h.c.Count("obj.shares_bounds_pointer_with_stored")
+			return stored{obj: &boxObj{bx: p, id: h.nextID}, box: *p, id: h.nextID}
+		}
 	}
 	if len(h.palette) > 0 && r.Chance(0.8) {
 		// many coincident objects: whole nodes full of equal boxes
@@ -695,7 +712,9 @@ func runHistory(c *core.Ctx, idx int, nn bool) {
 					*o = b
 					s.box = b
 				case *boxObj:
-					*o.bx = b
+					// (a fresh box: the one newObj gave it may be shared with a stored object)
+					bb := b
+					o.bx = &bb
 					s.box = b
 				default:
 					bb := b
